@@ -119,8 +119,17 @@ func init() {
 	reg("github.com/davecgh/go-spew/spew.Sdump", func(fr *frame, a []value) value { return "<spew>" })
 
 	// ---- sync.Pool ----
+	// Get hands back the object most recently Put (what the runtime does on
+	// one P without an intervening GC), New() when the pool is empty: state a
+	// caller leaves in a pooled object is seen by the next user.
 	reg("(*sync.Pool).Get", func(fr *frame, a []value) value {
 		p := a[0].(*value)
+		key := fmt.Sprintf("pool:%p", p)
+		if items, ok := fr.i.ext[key].([]value); ok && len(items) > 0 {
+			it := items[len(items)-1]
+			fr.i.ext[key] = items[:len(items)-1]
+			return it
+		}
 		s := (*p).(structure)
 		// field "New" is the last field
 		st := deref(fr.fn.Signature.Recv().Type()).Underlying().(*types.Struct)
@@ -134,7 +143,12 @@ func init() {
 		}
 		return iface{}
 	})
-	reg("(*sync.Pool).Put", nop)
+	reg("(*sync.Pool).Put", func(fr *frame, a []value) value {
+		key := fmt.Sprintf("pool:%p", a[0].(*value))
+		items, _ := fr.i.ext[key].([]value)
+		fr.i.ext[key] = append(items, a[1])
+		return nil
+	})
 
 	pkgExternals["github.com/btcsuite/btclog"] = func(fn *ssa.Function) externalFn { return nop }
 	pkgExternals["log"] = func(fn *ssa.Function) externalFn { return nop }
